@@ -4,7 +4,9 @@ import TTV.Model.Spinner
 The expected result of a run is computed **declaratively** from the scenario (no event loop, no queue):
 the first of "the Deferred fires / fails" and "the timeout call" in the reactor's order
 `(time, scheduling order)` decides, unless the reactor was stopped at a strictly earlier instant.
-`TTV.Props.C15` proves that the discrete-event model computes exactly this. -/
+`TTV.Props.C15` proves that the discrete-event model computes exactly this.
+A history interleaves calls of `run` (also with a timeout the reactor rejects), `clear_junk()` and handler
+installations by the process; the clause `signals` is stated for **every** call, unguarded. -/
 namespace TTV.Spec.C15
 open TTV.Reactor TTV.Spinner
 
@@ -118,10 +120,26 @@ def junkKnown (sc : Scen) (j : Junk) : Bool :=
 
 def refused (jb : List Junk) : Bool := !jb.isEmpty
 
+/-- the reactor rejects the timeout (and the run is not refused for stale junk before that): `reactor.callLater` raises,
+`run` raises out of the statements before its `try … finally` -/
+def rejects (sc : Scen) (jb : List Junk) : Bool := !refused jb && sc.bad
+
+/-- `f` is never called: the run is refused or the timeout rejected -/
+def skipped (sc : Scen) (jb : List Junk) : Bool := refused jb || sc.bad
+
 /-- refuses to run while there is junk (and only then); a refusal changes nothing -/
 def cStale (sc : Scen) (jb : List Junk) (o : RunObs) : Bool :=
   (o.result == .stalejunk) == refused jb &&
   (!refused jb ||
+    (o.events.isEmpty && o.reentries.isEmpty && o.junk == jb && o.pending == sc.pre.length && o.sels == 0
+      && !o.running && o.stopRestored && o.sigAfter == o.sigBefore && o.elapsed == 0))
+
+/-- a timeout the reactor does not accept makes `run` raise what `reactor.callLater` raised (and only that does); such
+a call changes nothing: no event, no junk, what the caller scheduled is still pending, every signal handler (preserved
+or not), `reactor.stop` and the reactor's state are what they were -/
+def cRejected (sc : Scen) (jb : List Junk) (o : RunObs) : Bool :=
+  (o.result == .rejected) == rejects sc jb &&
+  (!rejects sc jb ||
     (o.events.isEmpty && o.reentries.isEmpty && o.junk == jb && o.pending == sc.pre.length && o.sels == 0
       && !o.running && o.stopRestored && o.sigAfter == o.sigBefore && o.elapsed == 0))
 
@@ -131,7 +149,7 @@ def cReentry (sc : Scen) (_ : List Junk) (o : RunObs) : Bool :=
   o.reentries.length == (o.events.filter (isReenterEv sc)).length
 
 def cResult (sc : Scen) (jb : List Junk) (o : RunObs) : Bool :=
-  refused jb || o.result == expected sc
+  skipped sc jb || o.result == expected sc
 
 /-- the signals the property names (independent of what the code's table says) -/
 def mustPreserve (s : Nat) : Bool :=
@@ -146,9 +164,14 @@ def preservedSame : Nat → List Nat → List Nat → Bool
 
 /-- afterwards: not running, nothing pending, no selectables, `reactor.stop` and the preserved signal
 handlers are what they were -/
-def cClean (_ : Scen) (jb : List Junk) (o : RunObs) : Bool :=
-  refused jb ||
+def cClean (sc : Scen) (jb : List Junk) (o : RunObs) : Bool :=
+  skipped sc jb ||
     (!o.running && o.pending == 0 && o.sels == 0 && o.stopRestored && preservedSame 0 o.sigBefore o.sigAfter)
+
+/-- **whenever `run` returns or raises** - its own result, a timeout, a refusal, an exception of `reactor.callLater` - the
+SIGINT / SIGTERM / SIGCHLD handlers are what they were immediately before *that* call, whatever this spinner did or
+failed to do before and whatever the process installed in between -/
+def cSignals (_ : Scen) (_ : List Junk) (o : RunObs) : Bool := preservedSame 0 o.sigBefore o.sigAfter
 
 def isOwnResult : Res → Bool
   | .value _ => true
@@ -159,7 +182,7 @@ def isOwnResult : Res → Bool
 (exactly one of the two, once); the timeout call ran, or was cancelled (a result was recorded), or is junk;
 nothing else is junk; the selectables registered by executed actions are junk, in order -/
 def cJunk (sc : Scen) (jb : List Junk) (o : RunObs) : Bool :=
-  refused jb ||
+  skipped sc jb ||
     ((delayedLabels sc).all (fun l => o.junk.count (.call (.user l)) + (evLabels o).count (.user l) == 1)
      && o.junk.count (.call .timeout) + (evLabels o).count .timeout + (if isOwnResult o.result then 1 else 0) == 1
      && o.junk.all (junkKnown sc)
@@ -167,7 +190,7 @@ def cJunk (sc : Scen) (jb : List Junk) (o : RunObs) : Bool :=
 
 /-- the run never lasts beyond the timeout -/
 def cBounded (sc : Scen) (jb : List Junk) (o : RunObs) : Bool :=
-  refused jb || o.elapsed ≤ sc.timeout
+  skipped sc jb || o.elapsed ≤ sc.timeout
 
 /-! ## lifting to histories -/
 
@@ -175,18 +198,29 @@ def shape : List Step → List Obs → Bool
   | [], [] => true
   | .run _ :: ss, .run _ :: os => shape ss os
   | .clearJunk :: ss, .cleared _ :: os => shape ss os
+  | .setSig _ _ :: ss, .sigs _ :: os => shape ss os
   | _, _ => false
 
 /-- `p` holds of every run; the junk before a run is what the previous observation left -/
 def forRuns (p : Scen → List Junk → RunObs → Bool) : List Step → List Obs → List Junk → Bool
   | .run sc :: ss, .run o :: os, jb => p sc jb o && forRuns p ss os o.junk
   | .clearJunk :: ss, .cleared _ :: os, _ => forRuns p ss os []
+  | .setSig _ _ :: ss, .sigs _ :: os, jb => forRuns p ss os jb
   | _, _, _ => true
 
 /-- `clear_junk()` returns the junk and empties it -/
 def clearOk : List Step → List Obs → List Junk → Bool
   | .run _ :: ss, .run o :: os, _ => clearOk ss os o.junk
   | .clearJunk :: ss, .cleared j :: os, jb => j == jb && clearOk ss os []
+  | .setSig _ _ :: ss, .sigs _ :: os, jb => clearOk ss os jb
+  | _, _, _ => true
+
+/-- the handlers through the history: a call of `run` finds what the previous step left; between calls only the process
+changes them (`cur`: the handlers now) -/
+def sigThread : List Step → List Obs → List Nat → Bool
+  | .run _ :: ss, .run o :: os, cur => o.sigBefore == cur && sigThread ss os o.sigAfter
+  | .clearJunk :: ss, .cleared _ :: os, cur => sigThread ss os cur
+  | .setSig s h :: ss, .sigs l :: os, cur => l == cur.set s h && sigThread ss os l
   | _, _, _ => true
 
 def lift (p : Scen → List Junk → RunObs → Bool) (i : Input) (t : Trace) : Bool := forRuns p i.steps t []
@@ -194,9 +228,12 @@ def lift (p : Scen → List Junk → RunObs → Bool) (i : Input) (t : Trace) : 
 def clauses : List (String × (Input → Trace → Bool)) :=
   [("shape", fun i t => shape i.steps t),
    ("stale-junk", lift cStale),
+   ("rejected", lift cRejected),
    ("reentry", lift cReentry),
    ("result", lift cResult),
    ("clean", lift cClean),
+   ("signals", lift cSignals),
+   ("handlers-thread", fun i t => sigThread i.steps t [0, 0, 0, 0]),
    ("junk", lift cJunk),
    ("bounded", lift cBounded),
    ("clear-junk", fun i t => clearOk i.steps t [])]
